@@ -14,6 +14,7 @@ import shutil
 import subprocess
 import sys
 import tempfile
+import threading
 import time
 
 VERIF = os.path.dirname(os.path.dirname(os.path.abspath(__file__)))
@@ -32,12 +33,16 @@ class Infra(Exception):
 _scratch = None
 
 
+_scratch_lock = threading.Lock()
+
+
 def scratch():
     global _scratch
-    if _scratch is None:
-        _scratch = tempfile.mkdtemp(prefix="verif-")
-        atexit.register(lambda: shutil.rmtree(_scratch, ignore_errors=True))
-    return _scratch
+    with _scratch_lock:
+        if _scratch is None:
+            _scratch = tempfile.mkdtemp(prefix="verif-")
+            atexit.register(lambda: shutil.rmtree(_scratch, ignore_errors=True))
+        return _scratch
 
 
 def log(*a):
@@ -92,16 +97,23 @@ _tlc_stats = {"distinct": 0, "generated": 0, "runs": []}
 STATE_RE = re.compile(r"(\d+) states generated, (\d+) distinct states found")
 
 
+_spec_lock = threading.Lock()
+
+
 def _spec_copy():
-    d = os.path.join(scratch(), "spec")
-    if not os.path.isdir(d):
-        shutil.copytree(SPEC, d)
-        # flatten props/ next to the modules they extend
-        pd = os.path.join(d, "props")
-        if os.path.isdir(pd):
-            for f in os.listdir(pd):
-                shutil.copy(os.path.join(pd, f), os.path.join(d, f))
-    return d
+    # trace batches are validated by several threads: the first TLC run of a check may be one of them
+    with _spec_lock:
+        d = os.path.join(scratch(), "spec")
+        if not os.path.isdir(d):
+            tmp = d + ".part"
+            shutil.copytree(SPEC, tmp)
+            # flatten props/ next to the modules they extend
+            pd = os.path.join(tmp, "props")
+            if os.path.isdir(pd):
+                for f in os.listdir(pd):
+                    shutil.copy(os.path.join(pd, f), os.path.join(tmp, f))
+            os.rename(tmp, d)
+        return d
 
 
 def run_tlc(module, cfg=None, env=None, workers=None, timeout=600, heap="6g", simulate=None,
